@@ -276,6 +276,7 @@ pub mod mpsc {
             let t = me();
             let id = self.inner.id;
             par_enter(t, Call::Other);
+            let mut others_ran = false;
             loop {
                 let s = sim();
                 if s.poisoned.is_some() {
@@ -291,6 +292,17 @@ pub mod mpsc {
                 }
                 if let Some(d) = deadline {
                     if s.k.now >= d {
+                        // real sender threads run in parallel with the receiver: by the time it
+                        // looks, one of them may have its next message on offer.  In half of the
+                        // runs let every other thread run as far as it gets and look once more.
+                        if s.helpers_fast.is_none() {
+                            s.helpers_fast = Some(s.ch.choose(2) == 1);
+                        }
+                        if !others_ran && s.helpers_fast == Some(true) {
+                            others_ran = true;
+                            super::settle();
+                            continue;
+                        }
                         s.k.ev(Ent::Par(t), Call::Other, [2, id as i64, 0], 0);
                         return Err(RecvTimeoutError::Timeout);
                     }
